@@ -80,7 +80,34 @@ def _litval(v) -> str:
     return "o"
 
 
+_case_cache = None
+
+
+class case_cache:
+    """within one case every RDF term gets one annotation (rdflib can hold two python objects for the same
+    term with different `ill_typed` flags, e.g. "maybe"^^xsd:boolean is normalised to "false"^^xsd:boolean)"""
+
+    def __enter__(self):
+        global _case_cache
+        self.prev = _case_cache
+        _case_cache = {}
+        return self
+
+    def __exit__(self, *a):
+        global _case_cache
+        _case_cache = self.prev
+
+
 def term(t) -> str:
+    if isinstance(t, Literal) and _case_cache is not None:
+        k = tkey(t)
+        if k not in _case_cache:
+            _case_cache[k] = _term(t)
+        return _case_cache[k]
+    return _term(t)
+
+
+def _term(t) -> str:
     if isinstance(t, URIRef):
         return "I:" + esc(str(t))
     if isinstance(t, BNode):
